@@ -234,6 +234,7 @@ fn strategy(tier: Tier) -> BoxedStrategy<Case> {
             xs: xs(&s.vals),
             bars: vec![]
         }),
+        1 => cfg_among(&BK, 1024, || prop_oneof![Just(0.0), Just(1.0), Just(-0.5), Just(0.25)].boxed()).prop_flat_map(move |cfg| { let ml = if cfg.kind == Kind::Ce { maxlen.max(3 * cfg.n() + 20) } else { maxlen }; (Just(cfg), bar_stream_dom(Domain::Huge, 1, ml)) }).prop_map(|(cfg, s)| Case { cfg, scalar: false, xs: vec![], bars: s.bars }),
         // prices around 1e-305: products and differences are subnormal, tau*M is still ~1e-317
         1 => cfg_among(&SK, 1024, multiplier_any).prop_flat_map(move |cfg| (Just(cfg), stream(Domain::TinyAnySign, 1, maxlen))).prop_map(|(cfg, s)| Case {
             cfg,
